@@ -64,31 +64,44 @@ class C13(Prop):
     search_n = 120
     design_ref = "5/C13"
     technique = ("Lean 4 proof (buffer invariant, decoder/grammar simulation, induction over read/extract schedules) + "
-                 "constants and the get_user_data space rule regenerated from the source + model/implementation "
-                 "correspondence on the real get_user_data/copy_chars/get_user_command")
+                 "constants, the get_user_data space rule, statement orders and the COMPLETE transition table of copy_chars "
+                 "(state x byte -> state, actions; obtained by running the real function on every byte in every decoder "
+                 "configuration) regenerated from the source, with Lean bridging lemmas + model/implementation "
+                 "correspondence on the real get_user_data/copy_chars/get_user_command/set_call/call_function_interactive")
     level_text = ("Lean 4 theorems about an executable model of src/comm.c input framing (copy_chars telnet decoder, "
                   "get_user_data space rule/compaction/discard, PORT_ASCII and PORT_BINARY paths, first/next_cmd_in_buf, "
-                  "telnet_neg editing, add_console_line) for all byte streams and all read/extract schedules; tied to the "
-                  "source by regenerated constants and guard numbers and by running the real functions and the model on "
-                  "the same streams under exhaustive 2-splits and random k-splits; the Lean oracle judges every real trace")
-    level_note = ("trusted: Lean kernel; extract.py + the regexes in props/c13.py that read TS_* and the space rule from "
-                  "comm.c; the correspondence harness (recv/send interposed, apply renamed inside the included comm.c); "
-                  "single-character mode is modelled for memory safety only; NOECHO, snooping, ed and the LPC side of "
-                  "process_input are not modelled")
+                  "telnet_neg editing, add_console_line, get_char()/input_to() mode switches with set_telnet_single_char, "
+                  "reframe_single_char_input and NOECHO) for all byte streams and all read/extract/mode-switch schedules; "
+                  "tied to the source by regenerated constants, guard numbers, statement orders, the exhaustive copy_chars "
+                  "transition table (29 184 transitions compared in Lean) and the editing/terminator byte sets, and by "
+                  "running the real functions and the model on the same streams under exhaustive 2-splits and random "
+                  "k-splits; the Lean oracle judges every real trace; its crash/index/ask/line-length clauses are a theorem "
+                  "on model traces (run_events_safe)")
+    level_note = ("trusted: Lean kernel; extract.py + the regexes in props/c13.py that read TS_* and the guards from "
+                  "comm.c; the correspondence harness (recv/send interposed, apply renamed inside the included comm.c) and "
+                  "its ccprobe/edprobe commands that produce the transition table; the table covers single steps from "
+                  "canonical sub-negotiation buffers (that copy_chars is the fold of these steps is checked by the sampled "
+                  "correspondence only); framing clauses of the oracle are proved over schedule runs (fRun/cRun), not over "
+                  "the event list of the case-language run; single-character mode: memory safety, reframing = line framing "
+                  "for well-formed line ends, no delivery-granularity clause; the `!` escape, snooping, ed and the LPC side "
+                  "of process_input are not modelled")
     rule = ("quantifier coverage: streams = text, CR/LF/NUL combinations, IAC negotiations, complete / incomplete / "
             "oversized (97..300 byte) sub-negotiations, 8-bit data, lines of 600..4200 bytes (> 2 KiB buffer); "
             "segmentations = unsplit, ALL 2-splits of streams <= 28 bytes, random k-splits, 1-byte reads, reads on an "
             "empty socket; ports = telnet, ascii, binary, console; interleavings = extraction at the end / after each "
             "read / at random; callbacks = ok / LPC error / destruct at random ordinals; single-char mode switched on at "
-            "a random read.  "
+            "a random read; get_char()/input_to() (with and without NOECHO) and serve steps at random points, 300..700 raw "
+            "CR LF pairs typed ahead of a get_char (reframe room test at 680..684 pairs).  "
             "cases = corpus + known-finding inputs + boundary list + seeded streams (text, CR/LF/NUL mixes, IAC "
             "negotiations, complete/incomplete/oversized sub-negotiations, 8-bit data, lines > 2 KiB) x segmentations "
             "(all 2-splits of short streams, random k-splits, 1-byte reads) x extraction interleavings on telnet, ascii, "
             "binary ports and the console; non-trivial = trace has >= 2 lines; distinct = distinct canonical trace")
-    not_covered = ["single-character mode: delivery granularity is outside the statement (memory safety is covered)",
-                   "NOECHO handling in get_user_command, snooping, ed, termios",
+    not_covered = ["single-character mode: delivery granularity is outside the statement (memory safety, mode switches and "
+                   "reframing are covered)",
+                   "the `!` shell escape of process_user_command (WAS_SINGLE_CHAR), snooping, ed, termios / console get_char",
                    "what the LPC user object does with the line after process_input",
-                   "Windows IOCP completion path of get_user_data (evt != NULL)"]
+                   "Windows IOCP completion path of get_user_data (evt != NULL); recv() errno paths other than EWOULDBLOCK",
+                   "console worker thread / queue (blobs of any size are generated instead)"]
 
     # ---- tie: numbers that are not header constants ---------------------
     def gen_extra(self, ctx, bdir):
